@@ -9,7 +9,7 @@ for d in sorted(os.listdir(os.path.join(V, "seeded"))):
         m = json.load(open(mp))
         rows.append((d, m["property"], m["needs_to_manifest"], ", ".join(m["checks_expected_to_fire"]) or "- (see below)", m.get("history", "")))
 out = ["## 11. Seeded breaking changes: which checks catch which changes", "",
-"(Changes whose demonstration leaves the documented protocol are kept apart under `seeded/_discarded/` with the reason; no check is expected to fire on them: so far C11-e, which mixes the two submission styles in one session, C16-e, which re-uses an instance after OF_STATUS_FATAL_ERROR, and C08-h, whose repair-symbol callback returns a buffer although it is documented not to.)", "",
+"(Changes whose demonstration leaves the documented protocol are kept apart under `seeded/_discarded/` with the reason; no check is expected to fire on them: so far C11-e, which mixes the two submission styles in one session, C16-e, which re-uses an instance after OF_STATUS_FATAL_ERROR, C08-h, whose repair-symbol callback returns a buffer although it is documented not to, and C18-i, which needs NULL right-hand sides for the solver.)", "",
 "Each change below was produced by a fresh sub-agent that was given only the text of one property and a",
 "scratch git worktree of `/repo` (nothing from `/verif`). Each compiles, passes all 265 baseline tests, and",
 "comes with a demonstration program that fails with the change and passes without it; all three facts were",
